@@ -134,6 +134,11 @@ impl Write for Vec<u8> {
         self.extend_from_slice(buf);
         Ok(buf.len())
     }
+    /// std's `impl Write for Vec<u8>` overrides `write_all` the same way (no retry loop).
+    fn write_all(&mut self, buf: &[u8]) -> Result<()> {
+        self.extend_from_slice(buf);
+        Ok(())
+    }
     fn flush(&mut self) -> Result<()> {
         Ok(())
     }
